@@ -295,6 +295,7 @@ spec fn disjoint(s: Seq<Frame>, t: Seq<Frame>) -> bool { forall|p: int, q: int| 
 // the traversal invariant.  stack / rev (the `reverser`) / cur (index of the frame being expanded, or -1) hold the rules taken
 // from the table and not yet emitted, each once; every rule a VISITED stack frame depends on is emitted or sits above it (or is
 // on its way there: in rev, or is the frame in hand)
+#[verifier::opaque]
 spec fn dfs_inv(fb: Seq<FrameBufferValue>, fio: Seq<Frame>, m: Map<String, (usize, usize)>, tl: Seq<int>, stack: Seq<Frame>, rev: Seq<Frame>, cur: int, iset: Set<usize>) -> bool {
     &&& emit_ok(fb, fio, m, tl)
     &&& held(stack, fb, fio) && held(rev, fb, fio) && distinct(stack) && distinct(rev) && disjoint(stack, rev)
@@ -304,10 +305,12 @@ spec fn dfs_inv(fb: Seq<FrameBufferValue>, fio: Seq<Frame>, m: Map<String, (usiz
     &&& forall|q: int, b: int| 0 <= q < stack.len() && stack[q].visited && #[trigger] dep(stack[q], m, b) ==> emitted(fb, fio, b) || above(stack, q, b) || in_seq(rev, b) || b == cur
 }
 // between two calls of sort_once: nothing in hand
+#[verifier::opaque]
 spec fn rest_ok(fb: Seq<FrameBufferValue>, fio: Seq<Frame>, m: Map<String, (usize, usize)>, tl: Seq<int>) -> bool {
     emit_ok(fb, fio, m, tl) && forall|b: int| 0 <= b < fb.len() && (#[trigger] fb[b]).opt_frame is None ==> emitted(fb, fio, b)
 }
 // the first k sources of the frame in hand: the rule each depends on is emitted or waiting in rev
+#[verifier::opaque]
 spec fn srcs_placed(f: Frame, m: Map<String, (usize, usize)>, k: int, fb: Seq<FrameBufferValue>, fio: Seq<Frame>, rev: Seq<Frame>) -> bool {
     forall|b: int| #[trigger] dep_upto(f, m, b, k) ==> emitted(fb, fio, b) || in_seq(rev, b)
 }
@@ -315,16 +318,17 @@ spec fn slot_none(v: FrameBufferValue) -> FrameBufferValue { FrameBufferValue { 
 
 proof fn dfs_start(fb: Seq<FrameBufferValue>, fio: Seq<Frame>, m: Map<String, (usize, usize)>, tl: Seq<int>)
     requires rest_ok(fb, fio, m, tl) ensures dfs_inv(fb, fio, m, tl, Seq::empty(), Seq::empty(), -1, Set::empty())
-{}
+{ reveal(dfs_inv); reveal(rest_ok); reveal(srcs_placed); }
 proof fn dfs_finish(fb: Seq<FrameBufferValue>, fio: Seq<Frame>, m: Map<String, (usize, usize)>, tl: Seq<int>, stack: Seq<Frame>, iset: Set<usize>)
     requires dfs_inv(fb, fio, m, tl, stack, Seq::empty(), -1, iset), stack.len() == 0 ensures rest_ok(fb, fio, m, tl)
-{}
+{ reveal(dfs_inv); reveal(rest_ok); reveal(srcs_placed); }
 // take rule b out of the table into rev
 proof fn dfs_take(fb: Seq<FrameBufferValue>, fio: Seq<Frame>, m: Map<String, (usize, usize)>, tl: Seq<int>, stack: Seq<Frame>, rev: Seq<Frame>, cur: int, iset: Set<usize>, b: int, f: Frame, fb2: Seq<FrameBufferValue>)
     requires dfs_inv(fb, fio, m, tl, stack, rev, cur, iset), 0 <= b < fb.len(), fb[b].opt_frame is Some, f.index == b, fb2 == fb.update(b, slot_none(fb[b])),
     ensures dfs_inv(fb2, fio, m, tl, stack, rev.push(f), cur, iset), forall|c: int| emitted(fb, fio, c) ==> emitted(fb2, fio, c), in_seq(rev.push(f), b),
         forall|c: int| in_seq(rev, c) ==> in_seq(rev.push(f), c),
 {
+    reveal(dfs_inv); reveal(rest_ok); reveal(srcs_placed);
     let rev2 = rev.push(f);
     assert forall|c: int| emitted(fb2, fio, c) == (emitted(fb, fio, c)) by {
         if c == b && emitted(fb2, fio, c) { let p = fb[b].final_index as int; assert(fok(fio[p], tl)); }
@@ -348,6 +352,7 @@ proof fn dfs_elsewhere(fb: Seq<FrameBufferValue>, fio: Seq<Frame>, m: Map<String
     requires dfs_inv(fb, fio, m, tl, stack, rev, cur, iset), 0 <= b < fb.len(), fb[b].opt_frame is None, b != cur, !iset.contains(b as usize)
     ensures emitted(fb, fio, b) || in_seq(rev, b)
 {
+    reveal(dfs_inv); reveal(rest_ok); reveal(srcs_placed);
     if in_seq(stack, b) { let p = choose|p: int| 0 <= p < stack.len() && (#[trigger] stack[p]).index == b; assert(iset.contains(stack[p].index)); }
 }
 // one more source of the frame in hand has been dealt with
@@ -357,17 +362,25 @@ proof fn placed_step(f: Frame, m: Map<String, (usize, usize)>, k: int, fb: Seq<F
         m.contains_key(f.sources@[k]) ==> emitted(fb2, fio, m[f.sources@[k]].0 as int) || in_seq(rev2, m[f.sources@[k]].0 as int),
     ensures srcs_placed(f, m, k + 1, fb2, fio, rev2)
 {
+    reveal(dfs_inv); reveal(rest_ok); reveal(srcs_placed);
     assert forall|b: int| #[trigger] dep_upto(f, m, b, k + 1) implies emitted(fb2, fio, b) || in_seq(rev2, b) by {
         let j = choose|j: int| 0 <= j < k + 1 && j < f.sources@.len() && m.contains_key(#[trigger] f.sources@[j]) && m[f.sources@[j]].0 == b;
         if j < k { assert(dep_upto(f, m, b, k)); }
     }
 }
+proof fn placed_same_sources(f: Frame, g: Frame, m: Map<String, (usize, usize)>, k: int, fb: Seq<FrameBufferValue>, fio: Seq<Frame>, rev: Seq<Frame>)
+    requires f.sources == g.sources, srcs_placed(f, m, k, fb, fio, rev) ensures srcs_placed(g, m, k, fb, fio, rev)
+{
+    reveal(dfs_inv); reveal(rest_ok); reveal(srcs_placed);
+    assert forall|b: int| #[trigger] dep_upto(g, m, b, k) implies emitted(fb, fio, b) || in_seq(rev, b) by { assert(dep_upto(f, m, b, k)); }
+}
 // the top frame, visited, is emitted
-proof fn dfs_emit(fb: Seq<FrameBufferValue>, fio: Seq<Frame>, m: Map<String, (usize, usize)>, tl: Seq<int>, stack0: Seq<Frame>, iset: Set<usize>, frame: Frame, fb2: Seq<FrameBufferValue>)
-    requires dfs_inv(fb, fio, m, tl, stack0, Seq::empty(), -1, iset), stack0.len() > 0, frame == stack0.last(), frame.visited, fok(frame, tl), fio.len() < usize::MAX,
-        fb2 == fb.update(frame.index as int, FrameBufferValue { final_index: fio.len() as usize, opt_frame: fb[frame.index as int].opt_frame }),
+proof fn dfs_emit(fb: Seq<FrameBufferValue>, fio: Seq<Frame>, m: Map<String, (usize, usize)>, tl: Seq<int>, stack0: Seq<Frame>, iset: Set<usize>, frame: Frame, v: FrameBufferValue, fb2: Seq<FrameBufferValue>)
+    requires dfs_inv(fb, fio, m, tl, stack0, Seq::empty(), -1, iset), stack0.len() > 0, frame == stack0.last(), frame.visited, fok(frame, tl),
+        fb2 == fb.update(frame.index as int, v), v.final_index == fio.len(), v.opt_frame == fb[frame.index as int].opt_frame,
     ensures dfs_inv(fb2, fio.push(frame), m, tl, stack0.drop_last(), Seq::empty(), -1, iset.remove(frame.index))
 {
+    reveal(dfs_inv); reveal(rest_ok); reveal(srcs_placed);
     let bi = frame.index as int; let fio2 = fio.push(frame); let stack1 = stack0.drop_last(); let top = stack0.len() - 1; let n = fio.len() as int;
     let rev = Seq::<Frame>::empty();
     assert(stack0[top].index == bi);
@@ -403,6 +416,7 @@ proof fn dfs_pop(fb: Seq<FrameBufferValue>, fio: Seq<Frame>, m: Map<String, (usi
     requires dfs_inv(fb, fio, m, tl, stack0, Seq::empty(), -1, iset), stack0.len() > 0, frame == stack0.last(),
     ensures dfs_inv(fb, fio, m, tl, stack0.drop_last(), Seq::empty(), frame.index as int, iset.remove(frame.index)), srcs_placed(frame, m, 0, fb, fio, Seq::empty()),
 {
+    reveal(dfs_inv); reveal(rest_ok); reveal(srcs_placed);
     let bi = frame.index as int; let stack1 = stack0.drop_last(); let top = stack0.len() - 1; let rev = Seq::<Frame>::empty();
     assert(stack0[top].index == bi);
     assert(!in_seq(stack1, bi)) by { if in_seq(stack1, bi) { let p = choose|p: int| 0 <= p < stack1.len() && (#[trigger] stack1[p]).index == bi; assert(stack1[p] == stack0[p]); } }
@@ -423,6 +437,7 @@ proof fn dfs_sibling(fb: Seq<FrameBufferValue>, fio: Seq<Frame>, m: Map<String, 
     ensures dfs_inv(fb, fio, m, tl, stack.remove(pos), rev.push(f), cur, iset.remove(f.index)), in_seq(rev.push(f), f.index as int),
         forall|c: int| in_seq(rev, c) ==> in_seq(rev.push(f), c),
 {
+    reveal(dfs_inv); reveal(rest_ok); reveal(srcs_placed);
     let s2 = stack.remove(pos); let rev2 = rev.push(f); let b = f.index as int;
     assert(rev2[rev.len() as int].index == b);
     assert forall|c: int| in_seq(rev, c) implies in_seq(rev2, c) by { let p = choose|p: int| 0 <= p < rev.len() && (#[trigger] rev[p]).index == c; assert(rev2[p].index == c); }
@@ -450,6 +465,7 @@ proof fn dfs_visit(fb: Seq<FrameBufferValue>, fio: Seq<Frame>, m: Map<String, (u
     requires dfs_inv(fb, fio, m, tl, stack, rev, cur, iset), cur >= 0, fv.index == cur, srcs_placed(fv, m, fv.sources@.len() as int, fb, fio, rev),
     ensures dfs_inv(fb, fio, m, tl, stack.push(fv), rev, -1, iset.insert(fv.index))
 {
+    reveal(dfs_inv); reveal(rest_ok); reveal(srcs_placed);
     let s2 = stack.push(fv); let top = stack.len() as int;
     assert(s2[top].index == cur);
     assert(held(s2, fb, fio)) by { assert forall|p: int| 0 <= p < s2.len() implies (#[trigger] s2[p]).index < fb.len() && fb[s2[p].index as int].opt_frame is None && !emitted(fb, fio, s2[p].index as int) by { if p < top { assert(s2[p] == stack[p]); } } }
@@ -472,6 +488,7 @@ proof fn dfs_unrev(fb: Seq<FrameBufferValue>, fio: Seq<Frame>, m: Map<String, (u
     requires dfs_inv(fb, fio, m, tl, stack, rev0, -1, iset), rev0.len() > 0, f == rev0.last(), !f.visited,
     ensures dfs_inv(fb, fio, m, tl, stack.push(f), rev0.drop_last(), -1, iset.insert(f.index))
 {
+    reveal(dfs_inv); reveal(rest_ok); reveal(srcs_placed);
     let s2 = stack.push(f); let top = stack.len() as int; let rev1 = rev0.drop_last(); let last = rev0.len() - 1; let b = f.index as int;
     assert(rev0[last].index == b); assert(s2[top].index == b);
     assert(held(s2, fb, fio)) by { assert forall|p: int| 0 <= p < s2.len() implies (#[trigger] s2[p]).index < fb.len() && fb[s2[p].index as int].opt_frame is None && !emitted(fb, fio, s2[p].index as int) by { if p < top { assert(s2[p] == stack[p]); } } }
@@ -490,9 +507,45 @@ proof fn dfs_unrev(fb: Seq<FrameBufferValue>, fio: Seq<Frame>, m: Map<String, (u
         if in_seq(rev0, c) { let p = choose|p: int| 0 <= p < rev0.len() && (#[trigger] rev0[p]).index == c; if p < last { assert(rev1[p].index == c); } else { assert(s2[top].index == c); } }
     }
 }
+// every rule-to-rule edge of the plan points to an EARLIER node, and at one of that node's targets
+spec fn edges_back(nodes: Seq<Node>) -> bool {
+    forall|i: int, k: int| 0 <= i < nodes.len() && 0 <= k < nodes[i].source_indices@.len() ==>
+        (#[trigger] nodes[i].source_indices@[k] matches SourceIndex::Pair(p, sub) ==> p < i && sub < nodes[p as int].targets@.len())
+}
+spec fn leaf_edges_ok(nodes: Seq<Node>, n_leaves: int) -> bool {
+    forall|i: int, k: int| 0 <= i < nodes.len() && 0 <= k < nodes[i].source_indices@.len() ==> (#[trigger] nodes[i].source_indices@[k] matches SourceIndex::Leaf(l) ==> l < n_leaves)
+}
+// what the build relies on (ChannelPack::new's precondition, acyclic waiting, get_ticket(sub) in bounds)
+spec fn plan_ok(pack: NodePack) -> bool { edges_back(pack.nodes@) && leaf_edges_ok(pack.nodes@, pack.leaves@.len() as int) }
+proof fn plan_order(nodes: Seq<Node>, fio: Seq<Frame>, leaves: Seq<String>, m: Map<String, (usize, usize)>, fb: Seq<FrameBufferValue>, tl: Seq<int>)
+    requires rest_ok(fb, fio, m, tl), nodes.len() == fio.len(), forall|i: int| 0 <= i < nodes.len() ==> node_of(#[trigger] nodes[i], fio[i], leaves, m, fb),
+        forall|key: String| #![trigger m[key]] m.contains_key(key) ==> m[key].0 < tl.len() && m[key].1 < tl[m[key].0 as int],
+    ensures edges_back(nodes), leaf_edges_ok(nodes, leaves.len() as int)
+{
+    reveal(rest_ok);
+    assert forall|i: int, k: int| 0 <= i < nodes.len() && 0 <= k < nodes[i].source_indices@.len() implies (#[trigger] nodes[i].source_indices@[k] matches SourceIndex::Leaf(l) ==> l < leaves.len()) by {
+        assert(node_of(nodes[i], fio[i], leaves, m, fb)); assert(src_bound(nodes[i].source_indices@[k], fio[i].sources@[k], leaves, m, fb));
+    }
+    assert forall|i: int, k: int| 0 <= i < nodes.len() && 0 <= k < nodes[i].source_indices@.len() implies
+        (#[trigger] nodes[i].source_indices@[k] matches SourceIndex::Pair(p, sub) ==> p < i && sub < nodes[p as int].targets@.len()) by {
+        if let SourceIndex::Pair(p, sub) = nodes[i].source_indices@[k] {
+            assert(node_of(nodes[i], fio[i], leaves, m, fb));
+            let src = fio[i].sources@[k];
+            assert(src_bound(nodes[i].source_indices@[k], src, leaves, m, fb));
+            let b = m[src].0 as int;
+            assert(dep_upto(fio[i], m, b, fio[i].sources@.len() as int));
+            assert(dep(fio[i], m, b));
+            assert(emitted(fb, fio, b) && fb[b].final_index < i);
+            assert(fok(fio[p as int], tl));
+            assert(node_of(nodes[p as int], fio[p as int], leaves, m, fb));
+        }
+    }
+}
 impl TopologicalSortMachine {
     // every emitted frame knows where each of its sources comes from (needed by get_result's unwrap)
     spec fn wf_e(&self) -> bool { all_known(self.frames_in_order@, self.to_buffer_index@, self.source_leaves@, false) }
+    // between calls: the emitted list is in dependency order and every rule taken from the table is in it
+    spec fn wf_o(&self, tl: Seq<int>) -> bool { rest_ok(self.frame_buffer@, self.frames_in_order@, self.to_buffer_index@, tl) }
     // machine well-formedness, safety part: buffered frames sit at their own index with at least one target; the target index
     // only mentions existing (rule, position) pairs
     spec fn wf_s(&self, tl: Seq<int>) -> bool {
@@ -511,23 +564,56 @@ impl TopologicalSortMachine {
 //@ retype 1 /let mut target_cycle = vec!\[\];/ => let mut target_cycle : Vec<String> = Vec::new();
 //@ param Ghost(tl): Ghost<Seq<int>>
 //@ spec
-        requires old(self).wf_s(tl), old(self).wf_e(), index < tl.len(), sub_index < tl[index as int],
+        requires old(self).wf_s(tl), old(self).wf_e(), old(self).wf_o(tl), index < tl.len(), sub_index < tl[index as int],
         ensures final(self).wf_s(tl),                                                     //# O-S-machine-wf [C12,C05]
             res is Ok ==> final(self).wf_e(),                                             //# O-S-sources-known [C12,C05]
+            // a rule is emitted only after every rule it depends on: the emitted list stays in dependency order             //# O-S-order [C12,C03,C05]
+            res is Ok ==> final(self).wf_o(tl),
             final(self).to_buffer_index@ == old(self).to_buffer_index@,
 //@ hint start
         broadcast use vstd::std_specs::hash::group_hash_axioms;
         proof { string_key_model(); usize_key_model(); }
+        let ghost m = self.to_buffer_index@; let ghost fbs = self.frame_buffer@; let ghost fios = self.frames_in_order@;
+//@ hint before 1/1 /return Ok\(\(\)\);/
+                proof { assert(self.frame_buffer@ =~= fbs); }
+//@ hint after 1/1 /let mut stack = vec!\[starting_frame\];/
+        proof {
+            let e = Seq::<Frame>::empty();
+            dfs_start(fbs, fios, m, tl);
+            assert(self.frame_buffer@ =~= fbs.update(index as int, slot_none(fbs[index as int])));
+            dfs_take(fbs, fios, m, tl, e, e, -1, Set::empty(), index as int, stack@[0], self.frame_buffer@);
+            assert(e.push(stack@[0]).drop_last() =~= e);
+            dfs_unrev(self.frame_buffer@, fios, m, tl, e, e.push(stack@[0]), Set::empty(), stack@[0]);
+            assert(stack@ =~= e.push(stack@[0]));
+            assert(indices_in_stack@ =~= Set::<usize>::empty().insert(index));
+        }
+        let ghost mut gst = stack@;      // the stack as it was at the loop head (a `while let .. pop()` leaves no name for it)
+//@ hint before 2/2 /Ok\(\(\)\)/
+        proof { dfs_finish(self.frame_buffer@, self.frames_in_order@, m, tl, stack@, indices_in_stack@); }
 //@ loop 1 invariant
             invariant self.wf_s(tl), all_fok(stack@, tl), obeys_key_model::<String>(), obeys_key_model::<usize>(),
                 self.wf_e(), all_known(stack@, self.to_buffer_index@, self.source_leaves@, true), self.to_buffer_index@ == old(self).to_buffer_index@,
+                m == self.to_buffer_index@, dfs_inv(self.frame_buffer@, self.frames_in_order@, m, tl, stack@, Seq::empty(), -1, indices_in_stack@), gst == stack@,
+            ensures stack@.len() == 0,
             decreases count_some(self.frame_buffer@) + count_unv(stack@), stack@.len(),
 //@ hint after 1/1 /while let Some\(frame\) = stack\.pop\(\)\s*\{/
             let ghost fb0 = self.frame_buffer@; let ghost st0 = stack@;     // (stack already popped: st0 is the rest)
             let ghost m0 = count_some(fb0) + count_unv(st0) + unv(frame);
             proof { count_unv_nonneg(st0); count_some_nonneg(fb0); assert(st0.push(frame).drop_last() =~= st0); }
+            let ghost stk0 = gst; let ghost is0 = indices_in_stack@; let ghost fio0 = self.frames_in_order@; let ghost fr_cur = frame; let ghost cur = frame.index as int;
 //@ hint after 1/1 /self\.frame_buffer\[frame\.index\]\.final_index = self\.frames_in_order\.len\(\);/
                 proof { count_some_update(fb0, frame.index as int, self.frame_buffer@[frame.index as int]); assert(self.frame_buffer@ =~= fb0.update(frame.index as int, self.frame_buffer@[frame.index as int])); }
+//@ hint after 1/1 /self\.frames_in_order\.push\(frame\);/
+                proof {
+                    dfs_emit(fb0, fio0, m, tl, stk0, is0, fr_cur, self.frame_buffer@[fr_cur.index as int], self.frame_buffer@);
+                    assert(stk0.drop_last() =~= stack@);
+                    gst = stack@;
+                }
+//@ hint after 1/1 /let mut reverser = vec!\[\];/
+                proof { dfs_pop(fb0, fio0, m, tl, stk0, is0, fr_cur); assert(stk0.drop_last() =~= stack@); }
+                let ghost mut grv = reverser@;      // the reverser as it was at the head of the loop that empties it
+//@ hint before 1/1 /while let Some\(f\) = reverser\.pop\(\)/
+                proof { grv = reverser@; }
 //@ loop 2 binder it
 //@ loop 2 invariant
                     invariant self.wf_s(tl), all_fok(stack@, tl), all_fok(reverser@, tl), fok(frame, tl), obeys_key_model::<String>(), obeys_key_model::<usize>(),
@@ -535,6 +621,9 @@ impl TopologicalSortMachine {
                         self.wf_e(), all_known(stack@, self.to_buffer_index@, self.source_leaves@, true), self.to_buffer_index@ == old(self).to_buffer_index@,
                         srcs_known(frame, self.to_buffer_index@, self.source_leaves@, it.index@),
                         count_some(self.frame_buffer@) + count_unv(stack@) + reverser@.len() == m0 - 1,
+                        m == self.to_buffer_index@, fr_cur == frame, cur == frame.index,
+                        dfs_inv(self.frame_buffer@, self.frames_in_order@, m, tl, stack@, reverser@, cur, indices_in_stack@),
+                        srcs_placed(frame, m, it.index@, self.frame_buffer@, self.frames_in_order@, reverser@),
 //@ loop 3 binder it3
 //@ loop 3 invariant
                                                 invariant all_fok(stack@, tl), fok(frame, tl),
@@ -543,17 +632,29 @@ impl TopologicalSortMachine {
                         all_unv(reverser@),
                         self.wf_e(), all_known(stack@, self.to_buffer_index@, self.source_leaves@, true), self.to_buffer_index@ == old(self).to_buffer_index@,
                         count_some(self.frame_buffer@) + count_unv(stack@) + reverser@.len() == m0 - 1,
+                        dfs_inv(self.frame_buffer@, self.frames_in_order@, m, tl, stack@, reverser@, -1, indices_in_stack@), grv == reverser@,
                     ensures reverser@.len() == 0,
                     decreases reverser@.len(),
 //@ hint before 1/1 /if let Some\(mut frame\) = self\.frame_buffer\[\*buffer_index\]\.opt_frame\.take\(\)/
-                            let ghost fb1 = self.frame_buffer@; let ghost rv1 = reverser@; let ghost st1 = stack@;
+                            let ghost fb1 = self.frame_buffer@; let ghost rv1 = reverser@; let ghost st1 = stack@; let ghost is1 = indices_in_stack@; let ghost fio1 = self.frames_in_order@;
+                            let ghost k1 = it.index@; let ghost b1 = *buffer_index as int;
+                            proof { assert(m.contains_key(*source) && m[*source].0 == *buffer_index); assert(fr_cur.sources@[k1] == *source); }
 //@ hint after 1/1 /frame\.sub_index = \*sub_index;\s*reverser\.push\(frame\);/
                                 proof {
                                     assert(self.frame_buffer@ =~= fb1.update(*buffer_index as int, self.frame_buffer@[*buffer_index as int]));
                                     count_some_update(fb1, *buffer_index as int, self.frame_buffer@[*buffer_index as int]);
+                                    assert(self.frame_buffer@ =~= fb1.update(b1, slot_none(fb1[b1])));
+                                    dfs_take(fb1, fio1, m, tl, st1, rv1, cur, is1, b1, reverser@.last(), self.frame_buffer@);
+                                    assert(reverser@ =~= rv1.push(reverser@.last()));
+                                    placed_step(fr_cur, m, k1, fb1, fio1, rv1, self.frame_buffer@, reverser@);
                                 }
 //@ hint after 1/1 /sibling\.sub_index = \*sub_index;\s*reverser\.push\(sibling\);/
-                                            proof { count_unv_remove(st1, position as int); assert(self.frame_buffer@ =~= fb1); }
+                                            proof {
+                                                count_unv_remove(st1, position as int); assert(self.frame_buffer@ =~= fb1);
+                                                dfs_sibling(fb1, fio1, m, tl, st1, rv1, cur, is1, position as int, reverser@.last());
+                                                assert(reverser@ =~= rv1.push(reverser@.last()));
+                                                placed_step(fr_cur, m, k1, fb1, fio1, rv1, fb1, reverser@);
+                                            }
 //@ hint before 1/1 /self\.source_leaves\.insert\(/
                             let ghost lv0 = self.source_leaves@;
 //@ hint after 1/1 /self\.source_leaves\.insert\(source\.to_owned\(\)\);/
@@ -561,17 +662,34 @@ impl TopologicalSortMachine {
                                 known_mono(self.frames_in_order@, self.to_buffer_index@, lv0, self.source_leaves@, false);
                                 known_mono(stack@, self.to_buffer_index@, lv0, self.source_leaves@, true);
                                 assert(srcs_known(frame, self.to_buffer_index@, lv0, it.index@));
+                                assert(fr_cur.sources@[it.index@] == *source);
+                                placed_step(fr_cur, m, it.index@, self.frame_buffer@, self.frames_in_order@, reverser@, self.frame_buffer@, reverser@);
                             }
 //@ hint before 1/1 /\},\s*None =>\s*\{\s*self\.source_leaves\.insert/
-                            proof { if reverser@.len() == rv1.len() { assert(self.frame_buffer@ =~= fb1); } }
+                            proof {
+                                if reverser@.len() == rv1.len() {
+                                    assert(self.frame_buffer@ =~= fb1);
+                                    dfs_elsewhere(fb1, fio1, m, tl, st1, rv1, cur, is1, b1);
+                                    placed_step(fr_cur, m, k1, fb1, fio1, rv1, fb1, rv1);
+                                }
+                            }
 //@ hint after 1/1 /stack\.push\(frame\.visit\(\)\);/
                 proof { count_unv_push(st_before_visit, stack@.last()); }
+//@ hint after 1/1 /indices_in_stack\.insert\(frame_index\);/
+                proof {
+                    placed_same_sources(fr_cur, stack@.last(), m, fr_cur.sources@.len() as int, self.frame_buffer@, self.frames_in_order@, reverser@);
+                    dfs_visit(self.frame_buffer@, self.frames_in_order@, m, tl, st_before_visit, reverser@, cur, is_before_visit, stack@.last());
+                    assert(stack@ =~= st_before_visit.push(stack@.last()));
+                }
 //@ hint before 1/1 /stack\.push\(frame\.visit\(\)\);/
-                let ghost st_before_visit = stack@;
+                let ghost st_before_visit = stack@; let ghost is_before_visit = indices_in_stack@;
 //@ hint after 1/1 /while let Some\(f\) = reverser\.pop\(\)\s*\{/
-                    let ghost st4 = stack@;
+                    let ghost st4 = stack@; let ghost rv4 = grv; let ghost is4 = indices_in_stack@; let ghost fg = f;
+                    proof { assert(rv4.drop_last() =~= reverser@); }
 //@ hint after 1/1 /indices_in_stack\.insert\(f\.index\);\s*stack\.push\(f\);/
-                    proof { count_unv_push(st4, f); }
+                    proof { count_unv_push(st4, fg); dfs_unrev(self.frame_buffer@, self.frames_in_order@, m, tl, st4, rv4, is4, fg); assert(stack@ =~= st4.push(fg)); grv = reverser@; }
+//@ hint after 1/1 /indices_in_stack\.insert\(f\.index\);\s*stack\.push\(f\);\s*\}/
+                proof { assert(reverser@ =~= Seq::<Frame>::empty()); gst = stack@; }
 //@ end
 
 //@ extract sort.rs impl /^TopologicalSortMachine$/ fn new
@@ -598,8 +716,11 @@ impl TopologicalSortMachine {
 //@ retype 1 /let mut leaf_to_index = HashMap::new\(\);/ => let mut leaf_to_index : HashMap<String, usize> = HashMap::new();
 //@ retype 1 /let mut source_indices = vec!\[\];/ => let mut source_indices : Vec<SourceIndex> = Vec::new();
 //@ spec
-        requires self.wf_s(tl), self.wf_e(),
+        requires self.wf_s(tl), self.wf_e(), self.wf_o(tl),
         ensures
+            // dependency order: every rule-to-rule edge points to an earlier node and to one of its targets (so the plan is acyclic,
+            // a rule's thread only waits for threads before it, and get_ticket(sub) is in bounds)                                     //# O-S-plan-order [C12,C03,C05]
+            res matches Ok(pack) ==> plan_ok(pack),
             // never fails, never panics: every source of every emitted rule is a recorded leaf or an indexed target (the unwrap)      //# O-S-result-total [C05,C12]
             res matches Ok(pack) ==> pack.nodes@.len() == self.frames_in_order@.len()
                 // leaves: exactly the recorded leaf paths, each once
@@ -628,6 +749,8 @@ impl TopologicalSortMachine {
 //@ hint after 1/1 /let mut source_indices = vec!\[\];/
             let ghost fr0 = frame;
             proof { assert(fr0 == fio[it2.index@]); assert(srcs_known(fr0, m, leafset, fr0.sources@.len() as int)); }
+//@ hint before 1/1 /Ok\(NodePack::new\(leaves, nodes\)\)/
+        proof { plan_order(nodes@, fio, leaves@, m, fb, tl); }
 //@ loop 3 binder it3
 //@ loop 3 invariant
                 invariant source_indices@.len() == it3.index@,
@@ -691,6 +814,9 @@ proof fn table_wf(fb: Seq<FrameBufferValue>, m: Map<String, (usize, usize)>, tab
         // a goal that is no rule's target is reported as missing, by name (when no path is a target twice)                    //# O-S-missing [C12]
         (!some_target(sort_rules_spec(rules_view(rules@)), goal_target@) && !(res matches Err(TopologicalSortError::TargetInMultipleRules(_))))
             ==> (res matches Err(TopologicalSortError::TargetMissing(g)) && g@ == goal_target@),
+        // a plan that is handed out is in dependency order: every rule-to-rule edge points to an earlier node (at one of its targets),
+        // every leaf edge to a listed leaf                                                                                     //# O-S-plan-order [C12,C03,C05]
+        res matches Ok(pack) ==> plan_ok(pack),
 //@ hint start
     broadcast use vstd::std_specs::hash::group_hash_axioms;
     proof { string_key_model(); }
@@ -705,7 +831,10 @@ proof fn table_wf(fb: Seq<FrameBufferValue>, m: Map<String, (usize, usize)>, tab
         assert forall|i: int| 0 <= i < rv.len() implies (#[trigger] rv[i]).targets.len() > 0 by { assert(rv[i] == rule_view(rules@[i])); assert(rules@[i].targets@.len() > 0); }
         assert forall|b: int| 0 <= b < tab.len() implies (#[trigger] tab[b]).targets.len() > 0 by { sorted_nonempty(rv, b); }
         table_wf(frame_buffer@, to_buffer_index@, tab);
+        assert(rest_ok(frame_buffer@, Seq::<Frame>::empty(), to_buffer_index@, tl)) by { reveal(rest_ok); }
     }
+//@ hint after 1/1 /let mut machine = TopologicalSortMachine::new\(frame_buffer, to_buffer_index\);/
+    proof { assert(machine.frames_in_order@ =~= Seq::<Frame>::empty()); }
 //@ end
 
 //@ extract sort.rs fn topological_sort_all
@@ -716,6 +845,7 @@ proof fn table_wf(fb: Seq<FrameBufferValue>, m: Map<String, (usize, usize)>, tab
 //@ spec
     requires rules@.len() <= usize::MAX, nonempty_targets(rules@),
     ensures true,       // total: no panic, termination (native obligations)                                                  //# O-S-total-all [C05,C12]
+        res matches Ok(pack) ==> plan_ok(pack),                                                                               //# O-S-plan-order [C12,C03,C05]
 //@ hint start
     let ghost tab = sort_rules_spec(rules_view(rules@));
     let ghost tl = tcounts(tab);
@@ -725,9 +855,12 @@ proof fn table_wf(fb: Seq<FrameBufferValue>, m: Map<String, (usize, usize)>, tab
         assert forall|i: int| 0 <= i < rv.len() implies (#[trigger] rv[i]).targets.len() > 0 by { assert(rv[i] == rule_view(rules@[i])); assert(rules@[i].targets@.len() > 0); }
         assert forall|b: int| 0 <= b < tab.len() implies (#[trigger] tab[b]).targets.len() > 0 by { sorted_nonempty(rv, b); }
         table_wf(frame_buffer@, to_buffer_index@, tab);
+        assert(rest_ok(frame_buffer@, Seq::<Frame>::empty(), to_buffer_index@, tl)) by { reveal(rest_ok); }
     }
+//@ hint after 1/1 /let mut machine = TopologicalSortMachine::new\(frame_buffer, to_buffer_index\);/
+    proof { assert(machine.frames_in_order@ =~= Seq::<Frame>::empty()); }
 //@ loop 1 invariant
-        invariant machine.wf_s(tl), machine.wf_e(), frame_buffer_len == tl.len(),
+        invariant machine.wf_s(tl), machine.wf_e(), machine.wf_o(tl), frame_buffer_len == tl.len(),
 //@ end
 
 // path t is a target at two different places of the table
